@@ -437,6 +437,7 @@ var wordPools = [][]string{
 	{"b", "a", "c", "d", "e"},
 	{"4-door", "Ice cream", "5-o'clock", "7 up", "A b", "Élan vital", "9_to-five"},
 	{"élan", "ősz", "ночь", "ωμέγα", "ñandú"},
+	{"re\uFFFDplace", "100%", "a%sb", "'tis", "-ish", "(sic)", "iPhone", "mcDonald", "ſound"},
 }
 
 // wlInput generates an input slice for NewWordList.
